@@ -105,6 +105,9 @@ pub fn run(ops: &[String]) -> Vec<String> {
 		// hang in the tick loop: its updates run on a helper thread
 		let risky = case.iter().any(|l| l.contains("spt=0000000000000000") || risky_speed(l));
 		let mut speed_desc = String::new();
+		// every speed value given so far (creation value first)
+		let mut speeds: Vec<String> = vec![];
+		let mut nan_reported = false;
 		let mut pending_ticking: Option<bool> = None;
 		for l in &case[1..] {
 			let tok: Vec<&str> = l.split_whitespace().collect();
@@ -120,6 +123,7 @@ pub fn run(ops: &[String]) -> Vec<String> {
 				"new" => {
 					let v: Value<ClockSpeed> = parse_value(tok[1], &ids);
 					speed_desc = tok[1].to_string();
+					speeds = vec![tok[1].to_string()];
 					fixed_tps = match v {
 						Value::Fixed(s) => Some(tps(s)),
 						_ => None,
@@ -157,6 +161,7 @@ pub fn run(ops: &[String]) -> Vec<String> {
 					let v: Value<ClockSpeed> = parse_value(tok[1], &ids);
 					h.set_speed(v, parse_tween(tok[2], &ids));
 					speed_desc = tok[1].to_string();
+					speeds.push(tok[1].to_string());
 					fixed_tps = None;
 					out.put(show(c, h));
 				}
@@ -272,7 +277,14 @@ pub fn run(ops: &[String]) -> Vec<String> {
 						}
 					} else {
 						if let Some((_, f)) = c.state() {
-							if !(f >= 0.0 && f < 1.0) {
+							if f.is_nan() {
+								// the clock's time is not a number (and stays so until `stop()`): say which
+								// speed change led there, once per case
+								if !nan_reported {
+									nan_reported = true;
+									out.oracle_fail("clock_time_nan", format!("speeds={} {}", speeds.join(">"), l));
+								}
+							} else if !(f >= 0.0 && f < 1.0) {
 								out.oracle_fail("fraction_in_unit_interval", l);
 							}
 						}
@@ -347,7 +359,9 @@ pub fn gen(rng: &mut Rng, n: usize, _thorough: bool, stats: &mut Stats) -> Vec<S
 			format!("fix:{}={}", k, o64(x))
 		} else if rng.chance(2, 3) {
 			// round speeds make exact tick boundaries likely
-			let x = rng.pick(&[1.0, 2.0, 0.5, 4.0, 10.0, 120.0, 60.0, 0.25, 100.0]);
+			// (0.0: a clock that stands still — 0 ticks per second / minute; a speed tween away from it used to
+			// make the clock's time NaN; `spt=0` is an infinite speed: such a case is `risky`)
+			let x = rng.pick(&[1.0, 2.0, 0.5, 4.0, 10.0, 120.0, 60.0, 0.25, 100.0, 0.0]);
 			format!("fix:{}", ["spt", "tps", "tpm"][rng.below(3) as usize].to_string() + "=" + &o64(x))
 		} else {
 			gen_value::<ClockSpeed>(rng)
@@ -363,12 +377,21 @@ pub fn gen(rng: &mut Rng, n: usize, _thorough: bool, stats: &mut Stats) -> Vec<S
 				0 => "start".to_string(),
 				1 => "pause".to_string(),
 				2 => "stop".to_string(),
-				3 | 4 if rng.chance(1, 10) => format!(
-					"speed fix:{}={} {}",
-					rng.pick(&["spt", "tps", "tpm"]),
-					o64(rng.pick(&[0.0, 1e300, 5e-324, f64::MAX, 9007199254740994.0, 1e-300])),
-					gen_tween(rng)
-				),
+				// an infinite or enormous speed (only such: the case is then `risky` and runs on the helper thread;
+				// zero-ish speeds are left to `gen_value` — a tween FROM a zero speed to another unit is a separate defect)
+				3 | 4 if rng.chance(1, 10) => {
+					let (k, x) = rng.pick(&[
+						("spt", 0.0),
+						("spt", 5e-324),
+						("spt", 1e-300),
+						("tps", 1e300),
+						("tps", f64::MAX),
+						("tps", 9007199254740994.0),
+						("tpm", f64::MAX),
+						("tps", 1e12),
+					]);
+					format!("speed fix:{}={} {}", k, o64(x), gen_tween(rng))
+				}
 				3 | 4 => format!("speed {} {}", gen_value::<ClockSpeed>(rng), gen_tween(rng)),
 				5..=8 => "osp".to_string(),
 				9 => {
